@@ -224,6 +224,7 @@ func (tr *Transaction) Commit() error {
 				}
 			} else {
 				// Success. Set db.seq.
+				verifPoint("tr:commit-seq")
 				tr.db.setSeq(tr.seq)
 				break
 			}
